@@ -10,6 +10,7 @@ import (
 	"os"
 	"path/filepath"
 	"strings"
+	"time"
 
 	"verifharness/mon"
 	"verifharness/world"
@@ -76,6 +77,23 @@ func faults02() []fault02 {
 		{"quote-entirely-from-other-pki", "reject", func(a, b *world.World, r *mrand.Rand) {
 			chain(a, b.PKI.Leaf, b.PKI.Inter, b.PKI.Root)
 			a.Q.SignQE(b.PKI.Leaf.Key)
+		}},
+		// the same with a look-alike PKI that also copies every identifier of the genuine certificates (serial numbers, key
+		// identifiers, validity): nothing but the keys distinguishes the two
+		{"quote-entirely-from-identifier-copying-pki", "reject", func(a, b *world.World, r *mrand.Rand) {
+			l := world.LookalikePKI(a.PKI, world.SgxExtension(a.P))
+			chain(a, l.Leaf, l.Inter, l.Root)
+			a.Q.SignQE(l.Leaf.Key)
+		}},
+		{"identifier-copying-leaf-and-intermediate-own-root-appended", "reject", func(a, b *world.World, r *mrand.Rand) {
+			l := world.LookalikePKI(a.PKI, world.SgxExtension(a.P))
+			chain(a, l.Leaf, l.Inter, a.PKI.Root)
+			a.Q.SignQE(l.Leaf.Key)
+		}},
+		{"identifier-copying-leaf-under-own-intermediate-name", "reject", func(a, b *world.World, r *mrand.Rand) {
+			l := world.LookalikePKI(a.PKI, world.SgxExtension(a.P))
+			chain(a, l.Leaf, a.PKI.Inter, a.PKI.Root)
+			a.Q.SignQE(l.Leaf.Key)
 		}},
 		// ---- look-alike substitution of one element (QE report signed by whatever sits in the leaf slot)
 		{"lookalike-leaf", "reject", func(a, b *world.World, r *mrand.Rand) {
@@ -417,6 +435,25 @@ func c02(x *mon.Ctx) {
 			&rotCase{Class: "rot-bad-bundle", Param: name + "/inline-after-good-file", Files: []string{goodPEM}, Inline: []string{bad}, Quote: qs[0].raw, Times: tms, WantErr: true},
 		)
 	}
+	// roots whose validity period does not contain the wall clock (a retired PKI audited later, a PKI provisioned ahead of
+	// time): whether a listed root counts is decided at the verification time the caller gives, not when the bundle is read
+	for name, win := range map[string]world.Window{
+		"retired-pki": {NotBefore: time.Date(2001, 1, 1, 0, 0, 0, 0, time.UTC), NotAfter: time.Date(2011, 1, 1, 0, 0, 0, 0, time.UTC)},
+		"future-pki":  {NotBefore: time.Date(2051, 1, 1, 0, 0, 0, 0, time.UTC), NotAfter: time.Date(2061, 1, 1, 0, 0, 0, 0, time.UTC)},
+	} {
+		w := world.Honest(rr, world.HonestOpts{Window: win})
+		mid := win.NotBefore.Add(win.NotAfter.Sub(win.NotBefore) / 2).Unix()
+		var tms [5]int64
+		for i := range tms {
+			tms[i] = mid
+		}
+		pemRoot := string(w.PKI.Root.PEM)
+		rcs = append(rcs,
+			&rotCase{Class: "rot-validity-not-wall-clock", Param: name + "/file", Files: []string{pemRoot}, Quote: w.Q.Bytes(), Times: tms, WantAccept: true},
+			&rotCase{Class: "rot-validity-not-wall-clock", Param: name + "/inline", Inline: []string{pemRoot}, Quote: w.Q.Bytes(), Times: tms, WantAccept: true},
+			&rotCase{Class: "rot-validity-not-wall-clock", Param: name + "/file-with-current-root", Files: []string{goodPEM + pemRoot}, Quote: w.Q.Bytes(), Times: tms, WantAccept: true},
+			&rotCase{Class: "rot-validity-not-wall-clock", Param: name + "/not-listed", Files: []string{goodPEM}, Quote: w.Q.Bytes(), Times: tms, WantAccept: false})
+	}
 	// listed paths that name no file (plain, or shaped like a shell pattern): never a silent fall-back to the embedded root
 	for _, q := range []string{"missing.pem", "*.pem", "no-such-?.pem", "[abc].pem", "nodir/*.pem", "{a,b}.pem", "~/roots.pem"} {
 		for k, src := range []quoteSrc{qs[3], qs[4], qs[0]} {
@@ -447,4 +484,5 @@ func c02(x *mon.Ctx) {
 	x.Require("rot-subset", 40, 100, 150)
 	x.Require("rot-bad-bundle", 0, 0, 20)
 	x.Require("rot-unmatched-path", 0, 0, 28)
+	x.Require("rot-validity-not-wall-clock", 6, 2, 8)
 }
